@@ -101,7 +101,11 @@ def tie_probe(job):
     to_parse = real_or if bad else real_tr
     try:
         parsed, substrings = searcher.parse_found_objects(parser=Rec(), to_parse=to_parse, original=real_or, translated=real_tr, settings=settings)
-        fexp = {"hits": [[s, _dateid(ids, p[0]["date_obj"])] for s, p in zip(substrings, parsed) if s.strip()]}
+        for s_, p_ in zip(substrings, parsed):
+            _dateid(ids, p_[0]["date_obj"])
+        # what the model has to reproduce is the *final* list of `search_parse` (parse_found_objects + whatever search_parse does to the hits)
+        final = _ExactLanguageSearch(loader).search_parse(shortname, text, settings)
+        fexp = {"hits": [[s_, _dateid(ids, d_)] for s_, d_ in final]}
     except Exception as e:  # noqa
         fexp = {"e": type(e).__name__}
     finally:
@@ -191,6 +195,11 @@ def run_tie(jobs, model, pmap):
                 if "hits" in o and any(h[3] > 0 for h in o["hits"]):
                     stats["found-hit-from-later-piece"] += 1
                 got = {"hits": [[h[0], h[1]] for h in o["hits"]]} if "hits" in o else o
+                if not job[2] and "hits" in got and "hits" in exp:
+                    # no RELATIVE_BASE: the two library runs (recording run, final run) read the clock at different instants, so only the
+                    # substrings are comparable
+                    got = {"hits": [h[0] for h in got["hits"]]}
+                    exp = {"hits": [h[0] for h in exp["hits"]]}
                 if "hits" in exp and exp["hits"]:
                     stats["found-with-hits"] += 1
                 if got != exp:
